@@ -391,7 +391,7 @@ fn run_case(case: &Case) -> Res {
         .iter()
         .enumerate()
         .map(|(i, (v, sw))| {
-            if case.entry == 3 && *sw {
+            if case.entry >= 3 && *sw {
                 let mut outs: Vec<TxOut> = (0..i).map(|j| TxOut { value: Amount::from_sat(1_000 + j as u64), script_pubkey: foreign_script(8) }).collect();
                 outs.push(TxOut { value: Amount::from_sat(*v), script_pubkey: node.get_native_address(&wallet_path(40 + i as u32)).unwrap().script_pubkey() });
                 Some(Transaction {
@@ -572,8 +572,8 @@ fn run_case(case: &Case) -> Res {
         let ucks: Vec<Option<(lightning_signer::bitcoin::secp256k1::SecretKey, Vec<Vec<u8>>)>> = vec![None; inputs.len()];
         let n2 = node.clone();
         let before = if crate::monitors::grid_monitors() { Some(w.snapshot()) } else { None };
-        if case.entry == 3 {
-            // SignWithdrawal: PSBT with the previous transactions (or the claimed outputs), the
+        if case.entry >= 3 {
+            // SignWithdrawal (entry 3) or its alias SignHtlcTxMingle (entry 4): PSBT with the previous transactions (or the claimed outputs), the
             // wallet paths on the outputs and the node's own inputs listed as UTXOs; encoded and
             // decoded through the wire codec, as the segwit flags only exist after decoding
             use lightning_signer::bitcoin::bip32::Fingerprint;
@@ -610,9 +610,16 @@ fn run_case(case: &Case) -> Res {
                     is_in_coinbase: false,
                 })
                 .collect();
-            let bytes = msgs::SignWithdrawal { utxos: Array(utxos), psbt: WithSize(StreamedPSBT::new(psbt)) }.as_vec();
+            let mname = if case.entry == 3 { "SignWithdrawal" } else { "SignHtlcTxMingle" };
+            let bytes = if case.entry == 3 {
+                msgs::SignWithdrawal { utxos: Array(utxos), psbt: WithSize(StreamedPSBT::new(psbt)) }.as_vec()
+            } else {
+                // the peer / channel named in the request play no part in the validation
+                msgs::SignHtlcTxMingle { peer_id: vls_protocol::model::PubKey(dummy.serialize()), dbid: 1, utxos: Array(utxos), psbt: WithSize(StreamedPSBT::new(psbt)) }.as_vec()
+            };
             let o = match msgs::from_vec(bytes) {
                 Ok(m @ Message::SignWithdrawal(_)) => w.root_msg(m),
+                Ok(m @ Message::SignHtlcTxMingle(_)) => w.root_msg(m),
                 Ok(_) => Outcome::Err("decoded-as-another-message".into()),
                 Err(e) => Outcome::Err(format!("does-not-decode:{:?}", e).chars().take(40).collect()),
             };
@@ -622,15 +629,15 @@ fn run_case(case: &Case) -> Res {
                     Outcome::Err(e) => Outcome::Err(e.clone()),
                     Outcome::Panic(p) => Outcome::Panic(p.clone()),
                 };
-                crate::monitors::around(&w, &before, &as_refusal, "SignWithdrawal", &mut r.mon);
+                crate::monitors::around(&w, &before, &as_refusal, mname, &mut r.mon);
             }
             match o {
-                Outcome::Ok(Message::SignWithdrawalReply(_)) => {
+                Outcome::Ok(Message::SignWithdrawalReply(_)) | Outcome::Ok(Message::SignHtlcTxMingleReply(_)) => {
                     r.accepted = true;
                     r.class = format!("{}accepted", if round == 1 { "2nd-" } else if round > 1 { "nth-" } else { "" });
                     if let Err(wy) = &expect {
                         r.ref_why = wy.clone();
-                        r.vio = Some((format!("C08:SignWithdrawal:passed-although:{}", wy), format!("{:?} (request {}): inputs {} beneficial {} weight<= {} max rate {}: {}", case, round + 1, sum_in, beneficial, w_up, p.max_feerate_per_kw, wy)));
+                        r.vio = Some((format!("C08:{}:passed-although:{}", mname, wy), format!("{:?} (request {}): inputs {} beneficial {} weight<= {} max rate {}: {}", case, round + 1, sum_in, beneficial, w_up, p.max_feerate_per_kw, wy)));
                         return r;
                     }
                     prior += sum_in - beneficial;
@@ -783,9 +790,9 @@ fn bases() -> Vec<Case> {
             if pol == 2 && allow != 0 {
                 continue;
             }
-            for entry in 0..4u8 {
-                // the protocol message with the first allowlist only
-                if entry == 3 && allow != 0 {
+            for entry in 0..5u8 {
+                // the protocol messages with the first allowlist only
+                if entry >= 3 && allow != 0 {
                     continue;
                 }
                 // a wallet spend with change and an allowlisted destination
@@ -992,7 +999,7 @@ pub fn main(tier: Tier) -> i32 {
                 if c.devs.is_empty() {
                     base_acc += 1;
                 }
-                if c.entry == 3 {
+                if c.entry >= 3 {
                     wire_acc += 1;
                     if c.devs.is_empty() {
                         wire_base_acc += 1;
